@@ -714,6 +714,42 @@ func CheckC09(c *Ctx) {
 				w.Sample(map[string]any{"version": v.Name, "abbreviation": ab, "known": m >= 0, "values_tried": len(hval)})
 			}
 		})
+		// COMPLETE: every string of at most 3 (thorough: 4) ASCII letters as an abbreviation for Get and Set
+		{
+			letters := "ABCDEFGHIJKLMNOPQRSTUVWXYZabcdefghijklmnopqrstuvwxyz"
+			maxLen := c.Pick(3, 4)
+			total, pow := 0, 1
+			for l := 0; l <= maxLen; l++ {
+				total += pow
+				pow *= len(letters)
+			}
+			c.Parallel("abbreviations-exhaustive-"+v.Name, total, 8192, func(w *Worker, i int) {
+				l, base, k := 0, 1, i
+				for k >= base {
+					k -= base
+					base *= len(letters)
+					l++
+				}
+				b := make([]byte, l)
+				for j := 0; j < l; j++ {
+					b[j] = letters[k%len(letters)]
+					k /= len(letters)
+				}
+				ab := string(b)
+				m := v.Index(ab)
+				o := api.New()
+				_, err, p := probe.SafeGet(o, ab)
+				err2, p2 := probe.SafeSet(o, ab, "N")
+				w.EvalN(2)
+				legalSet := m >= 0 && v.ValueIndex(m, "N") >= 0
+				if p != nil || p2 != nil || (m >= 0) != (err == nil) || legalSet != (err2 == nil) {
+					c.Violate(Violation{Kind: "abbreviation-vocabulary-mismatch", Version: v.Name, Steps: []Step{{Op: "new"}, {Op: "get", S: ab}, {Op: "set", S: ab, Val: "N"}},
+						Expected: fmt.Sprintf("Get(%q) known=%v, Set(%q,\"N\") legal=%v", ab, m >= 0, ab, legalSet), Observed: fmt.Sprint(err, p, err2, p2)})
+				}
+				w.Count("abbreviations-enumerated")
+			})
+			matrix += int64(total)
+		}
 		matrix += int64(len(habv)) * int64(len(hval)) * 3
 		// accept counts per metric must equal the number of specified values (x3 objects)
 		for m, me := range v.Metrics {
@@ -741,7 +777,7 @@ func CheckC09(c *Ctx) {
 	c.Extra["values_tried"] = len(hval)
 	c.Extra["matrix_cells"] = matrix
 	c.SetReport(Report{
-		Rule:        "COMPLETE cross product (hostile abbreviation list incl. every abbreviation of all four versions, case variants, prefixes/suffixes, padded, doubled, empty) x (hostile value list built the same way from every value of every version) offered to Get/Set of each version on the zero value and two random objects; accept iff in the version's vocabulary; then zero values and random hostile Set histories (length 1-60) each followed by the well-formedness sweep (all Gets legal, Vector() accepted by the recogniser and agreeing with Get, every scoring method and Nomenclature return). distinct = matrix cells + distinct histories",
+		Rule:        "COMPLETE cross product (hostile abbreviation list incl. every abbreviation of all four versions, case variants, prefixes/suffixes, padded, doubled, empty) x (hostile value list built the same way from every value of every version) offered to Get/Set of each version on the zero value and two random objects; accept iff in the version's vocabulary; EVERY string of at most 3 (thorough: 4) ASCII letters as abbreviation; then zero values and random hostile Set histories (length 1-60) each followed by the well-formedness sweep (all Gets legal, Vector() accepted by the recogniser and agreeing with Get, every scoring method and Nomenclature return). distinct = matrix cells + distinct histories",
 		DistinctN:   matrix + c.Distinct.Count(),
 		Assumptions: []string{"vocabulary tables in harness/spec/vocab.go are the specifications' metric/value sets"},
 	})
